@@ -44,7 +44,8 @@ def run(ctx, R):
             R.ob('R18c', '%s:aux-root:%s' % (f.qname, root.qbase), not bad,
                  'a transaction other than the main one writes only '
                  'auxiliary records', ws, func=root)
-    R.count('R18c', m, 41)
+    # (41 today; merging two transactions of a request into one lowers it)
+    R.count('R18c', m, 34)
 
 
 def independent_uses(ctx, R, rule):
